@@ -39,8 +39,8 @@ def run(tier, seed, replay=None):
         states += g.distinct
         trans += g.generated
     v = vlib.Verdict(PROP)
-    n = 1200 if quick else 12000
-    chunks = 2 if quick else 8
+    n = 1200 if quick else 96000
+    chunks = 2 if quick else 16
     nrec = nstmts = 0
     ops = {}
     rejected = accepted = 0
